@@ -22,7 +22,22 @@ let of_tx (t : Model.tx_t) =
       (match t.Model.tx_wits with None -> VNone | Some w -> VL (List.map of_stack w)); VI t.Model.tx_locktime]
 let of_parsed (p : Model.tx_parsed) = VT [VB p.Model.p_txid; VB p.Model.p_wtxid; VB p.Model.p_raw; of_tx p.Model.p_tx]
 let bytes_r = of_result (fun b -> VB b)
+(* [c05_twice name kind argsA argsB]: the registered op c05_<name> applied to argsA and to argsB (a pure model: the
+   second call cannot depend on the first, the arguments are what they were) -> ( resultA resultB argsA argsB ) *)
+let string_of_vs v = String.concat "" (List.map (fun b -> String.make 1 (Char.chr (int_of_byte b))) (vb v))
+let twice = function
+  | [name; _kind; a; b] ->
+    (match Hashtbl.find_opt ops ("c05_" ^ string_of_vs name) with
+     | None -> raise (Bad "twice: unknown op")
+     | Some f ->
+       (match f (vl a) with
+        | RErr k -> RErr k
+        | ROk ra -> (match f (vl b) with
+                     | RErr k -> RErr k
+                     | ROk rb -> ROk (VT [ra; rb; VL (vl a); VL (vl b)]))))
+  | _ -> raise (Bad "arity")
 let () =
+  register "c05_twice" twice;
   register "c05_cs_enc" (function [a] -> bytes_r (Model.c05_cs_enc (vi a)) | _ -> raise (Bad "arity"));
   register "c05_cs_dec" (function [a] -> of_result (fun (n, r) -> VT [VI n; VB r]) (Model.c05_cs_dec (vb a)) | _ -> raise (Bad "arity"));
   register "c05_wit_ser" (function [a] -> bytes_r (Model.c05_wit_ser (List.map vb (vl a))) | _ -> raise (Bad "arity"));
